@@ -1482,3 +1482,259 @@ Lemma progress_q c reg st tx st' :
 Proof.
   intros Hw Hq Hr. apply (progress c reg); [exact Hw|]. apply queue_src_ok; assumption.
 Qed.
+
+(* ------------------------------------------------------------------ 8. the proxy's queue for one of its clients *)
+(* c2/proxy.go proxyClient.pick / next (pc_next) and the client's receive(s, nil, n) (recv_client).
+   Every packet in such a queue is for the client's device (Proxy.accept routes by device). *)
+
+Definition noreg (_ : Z) : bool := false.
+
+Lemma recv_client_spec i t :
+  i <> 0 -> wf_tx noreg i t ->
+  map untag_d (fst (recv_client i t)) = flat_map direct' (map untag (tx_packets t)) /\
+  (snd (recv_client i t) = 0 \/
+   (snd (recv_client i t) = E_COUNT /\ fst (recv_client i t) = [] /\ exists o, t = TMulti o /\ c_in o = [])).
+Proof.
+  intros Hi Hw. destruct t as [p|o]; cbn [wf_tx tx_packets recv_client] in *.
+  - destruct Hw as [Hd Hp]. destruct (handle_untag i p) as [H1 H2]. split.
+    + rewrite H1. cbn [map flat_map]. rewrite app_nil_r. unfold direct'.
+      change (p_dev (untag p)) with (p_dev p). rewrite Hd. reflexivity.
+    + left. pose proof (handle_no_err p) as Hn. rewrite Hd in Hn. apply Hn; assumption.
+  - destruct Hw as [Hd [Hl [Hb [Hall _]]]].
+    rewrite Hd. replace (i =? 0) with false by lia. rewrite (Z.eqb_refl i). cbn [negb]. rewrite andb_false_r.
+    destruct (f_len (c_fl o) =? 0) eqn:E0.
+    + assert (Hnil : c_in o = []) by (apply len_zero_nil; lia).
+      split; [rewrite Hnil; reflexivity|]. right. cbn [snd fst].
+      split; [reflexivity|]. split; [reflexivity|]. exists o. split; [reflexivity|assumption].
+    + assert (Hown : Forall (fun v => packable v = true /\ p_dev v = i) (c_in o)).
+      { rewrite Forall_forall in *. intros v Hv. destruct (Hall v Hv) as [A [_ [B|B]]]; [split; assumption|discriminate]. }
+      rewrite Hl, to_nat_len, recv_inner_spec by assumption.
+      cbn [fst snd]. split; [|left; reflexivity].
+      rewrite map_flat_map, flat_map_map.
+      clear - Hown. induction Hown as [|v l [_ Hv] _ IH]; [reflexivity|]. cbn [flat_map].
+      rewrite IH. f_equal. destruct (handle_untag i v) as [H1 _]. rewrite H1. unfold direct'.
+      change (p_dev (untag v)) with (p_dev v). rewrite Hv. reflexivity.
+Qed.
+
+(* one poll: what it consumes, what it sends, what it leaves (the peek slot is emptied by pick) *)
+Lemma pc_next_spec c st tx st' :
+  wf_conf c -> Forall (src_ok noreg (c_own c)) (pending st) ->
+  pc_next c st = (Some tx, st') ->
+  exists used,
+    pending st = used ++ pending st' /\
+    (pending st <> [] -> used <> []) /\
+    nonnop (map untag (tx_packets tx)) = nonnop (map (fun p => untag (norm (c_own c) p)) used) /\
+    wf_tx noreg (c_own c) tx.
+Proof.
+  intros [Hi HNP] Hall H. unfold pc_next in H.
+  destruct (pick_spec c st) as [[Hp Hk]|[n0 [q [Hp Hk]]]]; rewrite Hk in H.
+  - destruct (c_inter c); [discriminate|]. rewrite keepalive_own in H. cbn [is_nil andb] in H.
+    inversion H; subst. exists []. rewrite Hp. change (pending (mkS [] None 0)) with (@nil packet).
+    split; [reflexivity|]. split; [congruence|]. split.
+    + cbn [tx_packets map]. rewrite nonnop_cons_nop; [reflexivity|]. rewrite is_nop_untag, is_nop_norm. reflexivity.
+    + cbn [wf_tx]. split; [apply norm_own_dev; apply keepalive_own|]. rewrite packable_norm. reflexivity.
+  - rewrite Hp in Hall |- *. inversion Hall as [|? ? Hn0 Hq]; subst.
+    destruct (is_nil q && is_own (c_own c) n0) eqn:E1.
+    + inversion H; subst. apply andb_prop in E1. destruct E1 as [Eq Eo]. destruct q; [|discriminate].
+      exists [n0]. change (pending (mkS [] None 0)) with (@nil packet).
+      split; [reflexivity|]. split; [congruence|]. split; [reflexivity|].
+      cbn [wf_tx]. split; [apply norm_own_dev; exact Eo|]. rewrite packable_norm. apply Hn0.
+    + destruct (next_packet (c_frag c) (c_packets c) (c_own c) (Some n0) q (p_tags n0)) as [[o k] rest] eqn:EN.
+      destruct (next_packet_spec noreg _ _ _ _ _ _ _ _ _ EN Hi HNP Hall)
+        as [x [u [kept [H0 [H1 [H2 [H3 [H4 [H5 _]]]]]]]]].
+      subst o. inversion H; subst. exists (n0 :: u). rewrite pending_mkS.
+      split; [reflexivity|]. split; [congruence|]. split; [|exact H5].
+      rewrite H2, nonnop_map_untag_norm, H3, <- nonnop_map_untag_norm. reflexivity.
+Qed.
+
+Lemma pc_step_spec c st tx st' :
+  wf_conf c -> Forall (src_ok noreg (c_own c)) (pending st) ->
+  pc_next c st = (Some tx, st') ->
+  exists used,
+    pending st = used ++ pending st' /\ (pending st <> [] -> used <> []) /\
+    map untag_d (fst (recv_client (c_own c) tx)) = flat_map (direct (c_own c)) used /\
+    nonnop (map untag (tx_packets tx)) = nonnop (map (fun p => untag (norm (c_own c) p)) used).
+Proof.
+  intros Hw Hall H. destruct (pc_next_spec _ _ _ _ Hw Hall H) as [used [H1 [H2 [H3 H4]]]].
+  exists used. split; [exact H1|]. split; [exact H2|]. split; [|exact H3].
+  destruct Hw as [Hi _]. destruct (recv_client_spec _ _ Hi H4) as [R1 _].
+  rewrite R1, <- flat_map_direct'_nonnop, H3, flat_map_direct'_nonnop, flat_map_direct. reflexivity.
+Qed.
+
+(* polls with nothing pending yield keep-alives only and deliver nothing *)
+Lemma pc_polls_idle c : wf_conf c -> forall n st s,
+  pending st = [] -> In s (pc_polls c n st) ->
+  st_dlv s = [] /\ nonnop (map untag (tx_packets (st_tx s))) = [] /\ pending (st_after s) = [].
+Proof.
+  intro Hw. induction n as [|n IH]; intros st s Hp Hin; [destruct Hin|].
+  cbn [pc_polls] in Hin. destruct (pc_next c st) as [[tx|] st'] eqn:E; [|destruct Hin].
+  assert (Hall : Forall (src_ok noreg (c_own c)) (pending st)) by (rewrite Hp; constructor).
+  destruct (pc_step_spec _ _ _ _ Hw Hall E) as [used [H1 [_ [H3 H4]]]].
+  rewrite Hp in H1. symmetry in H1. apply app_eq_nil in H1. destruct H1 as [Hu Hp']. subst used.
+  destruct (recv_client (c_own c) tx) as [d e]. cbn [fst flat_map] in H3. apply map_eq_nil in H3. subst d.
+  destruct Hin as [Hs|Hin].
+  - subst s. cbn [st_dlv st_tx st_after]. split; [reflexivity|]. split; [exact H4|exact Hp'].
+  - exact (IH _ _ Hp' Hin).
+Qed.
+
+Lemma pc_polls_deliver_nothing c : wf_conf c -> forall n st,
+  pending st = [] -> deliveries (pc_polls c n st) = [].
+Proof.
+  intros Hw n st Hp.
+  assert (H : forall s, In s (pc_polls c n st) -> st_dlv s = []).
+  { intros s Hs. apply (pc_polls_idle c Hw n st s Hp Hs). }
+  unfold deliveries. induction (pc_polls c n st) as [|s l IH]; [reflexivity|]. cbn [flat_map].
+  rewrite (H s (or_introl eq_refl)), IH; [reflexivity|]. intros x Hx. apply H. right. exact Hx.
+Qed.
+
+Lemma pc_next_none c st st' : pc_next c st = (None, st') -> pending st = [].
+Proof.
+  unfold pc_next. destruct (pick_spec c st) as [[Hp Hk]|[n0 [q [Hp Hk]]]]; rewrite Hk; [intros _; exact Hp|].
+  intro H. exfalso. destruct (is_nil q && is_own (c_own c) n0); [discriminate|].
+  destruct (next_packet (c_frag c) (c_packets c) (c_own c) (Some n0) q (p_tags n0)) as [[o k] rest] eqn:EN.
+  apply next_packet_some in EN. inversion H; subst. congruence.
+Qed.
+
+(* drain_delivers_queue for the proxy's queue, extra polls included *)
+Lemma pc_drain_fuel_delivers c extra : wf_conf c -> forall fuel st,
+  (length (pending st) < fuel)%nat -> Forall (src_ok noreg (c_own c)) (pending st) ->
+  map untag_d (deliveries (pc_drain_fuel c extra fuel st)) = flat_map (direct (c_own c)) (pending st).
+Proof.
+  intro Hw. induction fuel as [|f IH]; intros st Hf Hall; [lia|].
+  cbn [pc_drain_fuel]. destruct (pc_next c st) as [[tx|] st'] eqn:E.
+  - destruct (pc_step_spec _ _ _ _ Hw Hall E) as [used [H1 [H2 [H3 _]]]].
+    destruct (recv_client (c_own c) tx) as [d e]. cbn [fst] in H3.
+    rewrite deliveries_cons. cbn [st_dlv]. rewrite map_app, H3.
+    replace (flat_map (direct (c_own c)) (pending st)) with (flat_map (direct (c_own c)) (used ++ pending st'))
+      by (rewrite <- H1; reflexivity).
+    rewrite flat_map_app. f_equal.
+    destruct (is_nil (pending st')) eqn:En.
+    + assert (Hp' : pending st' = []) by (destruct (pending st'); [reflexivity|discriminate]).
+      rewrite (pc_polls_deliver_nothing c Hw extra st' Hp'), Hp'. reflexivity.
+    + assert (Hne : pending st <> []).
+      { intro Hc. rewrite Hc in H1. symmetry in H1. apply app_eq_nil in H1. destruct H1 as [_ H1].
+        rewrite H1 in En. discriminate. }
+      apply IH.
+      * specialize (H2 Hne). rewrite H1, app_length in Hf. destruct used; [congruence|]. cbn [length] in Hf. lia.
+      * rewrite H1 in Hall. apply Forall_suffix in Hall. exact Hall.
+  - apply pc_next_none in E. rewrite E. reflexivity.
+Qed.
+
+Lemma pc_queue_src_ok i q :
+  Forall (fun p => queueable p = true) q -> Forall (fun p => is_own i p = true) q -> Forall (src_ok noreg i) q.
+Proof.
+  intros H1 H2. rewrite Forall_forall in *. intros p Hp.
+  split; [apply queueable_packable; apply H1; exact Hp|left; apply H2; exact Hp].
+Qed.
+
+Lemma pc_drain_delivers_queue c extra q :
+  wf_conf c -> Forall (fun p => queueable p = true) q -> Forall (fun p => is_own (c_own c) p = true) q ->
+  map untag_d (deliveries (pc_drain c extra (mkS q None 0))) = flat_map (direct (c_own c)) q.
+Proof.
+  intros Hw Hq Ho. unfold pc_drain.
+  rewrite (pc_drain_fuel_delivers c extra Hw); [reflexivity|lia|]. apply pc_queue_src_ok; assumption.
+Qed.
+
+Lemma pc_drain_delivers_plain c extra q :
+  wf_conf c -> Forall (fun p => queueable p = true /\ (is_nop p = true \/ plain p = true)) q ->
+  Forall (fun p => is_own (c_own c) p = true) q ->
+  map untag_d (deliveries (pc_drain c extra (mkS q None 0))) =
+  map (to_own (c_own c)) (filter (fun p => negb (is_nop p)) q).
+Proof.
+  intros Hw Hq Ho.
+  assert (Hq' : Forall (fun p => queueable p = true) q).
+  { rewrite Forall_forall in *. intros p Hp. apply (Hq p Hp). }
+  rewrite (pc_drain_delivers_queue c extra q Hw Hq' Ho).
+  apply flat_map_direct_plain; [apply Hw|exact Hq].
+Qed.
+
+(* once nothing is pending, further polls only ever yield keep-alives *)
+Lemma pc_idle_polls_only_keepalives c n st s :
+  wf_conf c -> pending st = [] -> In s (pc_polls c n st) ->
+  st_dlv s = [] /\ (forall p, In p (tx_packets (st_tx s)) -> is_nop p = true) /\ pending (st_after s) = [].
+Proof.
+  intros Hw Hp Hin. destruct (pc_polls_idle c Hw n st s Hp Hin) as [H1 [H2 H3]].
+  split; [exact H1|]. split; [|exact H3]. intros p Hin'.
+  destruct (is_nop p) eqn:En; [reflexivity|]. exfalso.
+  assert (Hx : In (untag p) (nonnop (map untag (tx_packets (st_tx s))))).
+  { unfold nonnop. apply filter_In. split; [apply in_map; exact Hin'|]. rewrite is_nop_untag, En. reflexivity. }
+  rewrite H2 in Hx. destruct Hx.
+Qed.
+
+(* carry_over_never_lost for the proxy's queue: the carried packet is peek, opens the next
+   transmission, and the slot is empty again unless that transmission carries over another packet *)
+Lemma pc_carry_over c st tx st' k :
+  wf_conf c -> Forall (fun p => packable p = true) (pending st) ->
+  pc_next c st = (Some tx, st') -> s_peek st' = Some k ->
+  In k (pending st) /\
+  exists tx' st'', pc_next c st' = (Some tx', st'') /\
+    (exists v, first_packet tx' = Some v /\ untag v = untag (norm (c_own c) k)) /\
+    (forall k', s_peek st'' = Some k' -> In k' (s_q st')).
+Proof.
+  intros [Hi HNP] Hp H Hk. unfold pc_next in H.
+  destruct (pick_spec c st) as [[Hpe Hpk]|[n0 [q [Hpe Hpk]]]]; rewrite Hpk in H.
+  { destruct (c_inter c); [discriminate|]. rewrite keepalive_own in H. cbn [is_nil andb] in H.
+    inversion H; subst. discriminate. }
+  destruct (is_nil q && is_own (c_own c) n0); [inversion H; subst; discriminate|].
+  destruct (next_packet (c_frag c) (c_packets c) (c_own c) (Some n0) q (p_tags n0)) as [[o k0] rest] eqn:EN.
+  inversion H; subst st'. cbn [s_peek] in Hk. subst k0. clear H.
+  rewrite Hpe in Hp.
+  unfold next_packet in EN.
+  destruct ((c_packets c <=? 1) || is_nil q) eqn:Efast.
+  { destruct (is_own (c_own c) n0); inversion EN. }
+  destruct (np_loop (c_frag c) (c_own c) (Z.to_nat (c_packets c)) (n0 :: q) 0 false (mkC (c_own c) fl_multi [] []))
+    as [[o' k'] r'] eqn:EL.
+  inversion EN; subst. clear EN.
+  pose proof (np_loop_carry _ _ _ _ _ _ _ _ _ _ EL) as Hknop.
+  destruct (np_loop_struct _ _ _ _ _ _ _ _ _ _ EL Hp) as [used [kept [S1 _]]].
+  assert (Hkin : In k (n0 :: q)) by (rewrite S1; apply in_or_app; right; left; reflexivity).
+  assert (Hprest : Forall (fun p => packable p = true) (k :: rest)).
+  { rewrite S1 in Hp. apply Forall_suffix in Hp. exact Hp. }
+  split; [rewrite Hpe; exact Hkin|].
+  unfold pc_next, pick. cbn [s_peek s_q].
+  destruct (is_nil rest && is_own (c_own c) k).
+  { eexists _, _. split; [reflexivity|]. split; [eexists; split; reflexivity|]. intros k' Hk'. discriminate. }
+  destruct (next_packet (c_frag c) (c_packets c) (c_own c) (Some k) rest (p_tags k)) as [[o2 k2] rest2] eqn:EN2.
+  destruct o2 as [x2|]; [|apply next_packet_some in EN2; congruence].
+  eexists _, _. split; [reflexivity|]. split.
+  - apply (next_packet_first _ _ _ _ _ _ _ _ _ EN2 Hknop Hprest).
+  - cbn [s_peek]. intros k' Hk'. subst k2.
+    unfold next_packet in EN2.
+    destruct ((c_packets c <=? 1) || is_nil rest); [destruct (is_own (c_own c) k); inversion EN2|].
+    destruct (np_loop (c_frag c) (c_own c) (Z.to_nat (c_packets c)) (k :: rest) 0 false (mkC (c_own c) fl_multi [] []))
+      as [[o3 k3] r3] eqn:EL2.
+    inversion EN2; subst.
+    destruct (np_loop_struct _ _ _ _ _ _ _ _ _ _ EL2 Hprest) as [used2 [kept2 [T1 [_ [_ [_ [_ [_ [_ T8]]]]]]]]].
+    assert (Hfuel : Z.to_nat (c_packets c) <> O) by (apply orb_false_elim in Efast; lia).
+    specialize (T8 eq_refl Hfuel ltac:(discriminate)).
+    destruct used2 as [|x u2]; [congruence|]. cbn [app optl] in T1. injection T1 as _ T1.
+    rewrite T1. apply in_or_app. right. left. reflexivity.
+Qed.
+
+(* proxyClient.next is Session.next without proxy tags, key-material rule, abandoned group and
+   mergeTags: on a session without active proxy, with state.Last = 0 and no key material picked,
+   the two functions consume and leave the same packets and build the same transmission; the
+   session then merges the tags it started from into it *)
+Lemma session_next_is_pc_next c st :
+  c_ptags c = None -> s_last st = 0 ->
+  (forall n0 q, pending st = n0 :: q -> q <> [] -> f_crypt (p_fl n0) && is_own (c_own c) n0 = false) ->
+  snd (session_next c st) = snd (pc_next c st) /\
+  match fst (pc_next c st), fst (session_next c st) with
+  | Some x, Some y => y = x \/ y = tx_set_tags x (merge_tags (tx_tags x) (first_tags c st))
+  | None, None => True
+  | _, _ => False
+  end.
+Proof.
+  intros Hpt Hl Hcr. rewrite first_tags_spec. unfold session_next, pc_next, retag. rewrite Hpt, Hl.
+  destruct (pick_spec c st) as [[Hp Hk]|[n0 [q [Hp Hk]]]]; rewrite Hk, Hp.
+  - destruct (c_inter c); cbn [fst snd]; [split; [reflexivity|exact I]|].
+    rewrite keepalive_own. cbn [is_nil andb fst snd]. split; [reflexivity|left; reflexivity].
+  - destruct (is_nil q && is_own (c_own c) n0) eqn:E1; cbn [fst snd]; [split; [reflexivity|left; reflexivity]|].
+    destruct (f_crypt (p_fl n0) && is_own (c_own c) n0) eqn:EC.
+    { exfalso. assert (Hq : q <> []).
+      { intro Hq. subst q. apply andb_prop in EC. destruct EC as [_ EC]. rewrite EC in E1. discriminate. }
+      rewrite (Hcr n0 q Hp Hq) in EC. discriminate. }
+    change (0 <? 0) with false. cbn iota. unfold finish.
+    destruct (next_packet (c_frag c) (c_packets c) (c_own c) (Some n0) q (p_tags n0)) as [[o k] rest].
+    cbn [fst snd]. split; [reflexivity|]. destruct o; [right; reflexivity|exact I].
+Qed.
